@@ -3,6 +3,7 @@ package props
 import (
 	"fmt"
 	"math"
+	"strings"
 
 	"github.com/go-kid/ioc/configure"
 	"github.com/go-kid/ioc/util/framework_helper"
@@ -39,10 +40,10 @@ type sortO struct{ id, ord int }
 type sortP struct{ id, ord int }
 type sortPO struct{ id int }
 
-func (s *sortO) Order() int  { return s.ord }
-func (s *sortP) Order() int  { return s.ord }
-func (s *sortP) Priority()   {}
-func (s *sortPO) Priority()  {}
+func (s *sortO) Order() int { return s.ord }
+func (s *sortP) Order() int { return s.ord }
+func (s *sortP) Priority()  {}
+func (s *sortPO) Priority() {}
 
 var ordPool = []int{0, 0, 1, -1, 2, -2, 5, 5, 5, math.MinInt, math.MaxInt, math.MaxInt - 1, math.MinInt + 1, 100, -100}
 
@@ -170,6 +171,9 @@ func (p c12) start(c *core.Ctx) {
 	var extra []any
 	ppClass := map[string]part{}
 	withDeps := c.Rng.Intn(3) == 0
+	withLazy := c.Rng.Intn(2) == 0
+	lazyPP := map[string]bool{}
+	var plain []int // indices into extra of the plain logging post-processors
 	for k := 0; k < npp; k++ {
 		cl := c.Rng.Intn(4)
 		ord := ordPool[c.Rng.Intn(len(ordPool))]
@@ -178,10 +182,28 @@ func (p c12) start(c *core.Ctx) {
 			// a post-processor with an injection point of its own: what it needs is created while the
 			// chain is still being built
 			extra = append(extra, world.NewPPDep(cl, name, ord))
+		} else if withLazy && c.Rng.Intn(2) == 0 {
+			// used as registered, without being created first: still one participant of the one sequence
+			plain = append(plain, len(extra))
+			extra = append(extra, world.NewLazyPP(cl, name, ord))
+			lazyPP[name] = true
 		} else {
+			plain = append(plain, len(extra))
 			extra = append(extra, world.NewPP(cl, name, ord))
 		}
 		ppClass[name] = part{k, map[int]int{0: 2, 1: 1, 2: 0, 3: 2}[cl], ord}
+	}
+	// in a third of the starts one logging post-processor supplies one component from its
+	// before-instantiation callback: the processors asked before it see that callback, nobody sees the
+	// other creation callbacks, and every participant sees the after-initialization callback
+	supplier, supplied := "", ""
+	if len(plain) > 0 && c.Rng.Intn(3) == 0 {
+		pp := extra[plain[c.Rng.Intn(len(plain))]]
+		t := c.Rng.Intn(len(sc.Nodes))
+		if !world.Palette[sc.Nodes[t].Type].Runner {
+			supplier, supplied = world.PPCoreOf(pp).Nm, sc.Nodes[t].DisplayName()
+			world.PPCoreOf(pp).Supply = supplied
+		}
 	}
 	c.Rng.Shuffle(len(extra), func(i, j int) { extra[i], extra[j] = extra[j], extra[i] })
 	nl := c.Rng.Intn(7)
@@ -251,7 +273,7 @@ func (p c12) start(c *core.Ctx) {
 	prepEnd := -1
 	for _, e := range ev {
 		if e.Kind == "after" && e.By == "" {
-			if _, isPP := ppClass[e.Who]; isPP && e.Seq > prepEnd {
+			if _, isPP := ppClass[e.Who]; isPP && !lazyPP[e.Who] && e.Seq > prepEnd {
 				prepEnd = e.Seq
 			}
 		}
@@ -283,6 +305,36 @@ func (p c12) start(c *core.Ctx) {
 		cnt[key+"|"+e.By]++
 	}
 	for key, seq := range perComp {
+		if supplied != "" && strings.HasSuffix(key, "|"+supplied) {
+			kind := strings.SplitN(key, "|", 2)[0]
+			switch kind {
+			case "pp-after":
+				// falls through to the complete-sequence check
+			case "pp-before-inst":
+				if v := contractViolation(seq); v != "" {
+					c.Fail("", "post-processor callback order ("+key+") violates the contract: "+v, failDetail(sc, r, map[string]any{"sequence": fmt.Sprint(seq)}))
+					return
+				}
+				sup := ppClass[supplier]
+				if seq[len(seq)-1] != sup {
+					c.Fail("", fmt.Sprintf("%s: the supplying post-processor %s is not the last one asked: %v", key, supplier, seq), failDetail(sc, r, nil))
+					return
+				}
+				for name, pt := range ppClass {
+					if pt.class < sup.class || (pt.class == sup.class && pt.class < 2 && pt.ord < sup.ord) {
+						if cnt[key+"|"+name] != 1 {
+							c.Fail("", fmt.Sprintf("%s: post-processor %s precedes the supplier %s but was asked %d times", key, name, supplier, cnt[key+"|"+name]), failDetail(sc, r, nil))
+							return
+						}
+					}
+				}
+				c.Count("supplied_component_sequences_checked", 1)
+				continue
+			default:
+				c.Fail("", fmt.Sprintf("%s: creation callback for a component that %s supplied before instantiation", key, supplier), failDetail(sc, r, nil))
+				return
+			}
+		}
 		if len(seq) != npp {
 			c.Fail("", fmt.Sprintf("%s: %d callbacks for %d logging post-processors (a participant is missing or repeated)", key, len(seq), npp), failDetail(sc, r, map[string]any{"events": renderEvents(ev, 200)}))
 			return
@@ -301,6 +353,14 @@ func (p c12) start(c *core.Ctx) {
 	c.Count("callback_sequences_checked", len(perComp)+2)
 	if withDeps {
 		c.Count("starts_with_dependent_post_processors", 1)
+	}
+	if len(lazyPP) > 0 && len(lazyPP) < npp {
+		c.Count("starts_mixing_lazy_and_created_post_processors", 1)
+	}
+	if supplied != "" {
+		if _, ok := perComp["pp-after|"+supplied]; ok {
+			c.Count("starts_with_a_supplied_component_observed", 1)
+		}
 	}
 	if npp+nr+nl >= 6 {
 		c.Nontrivial(fmt.Sprintf("start:%v|%v|%v|%s", lseq, rseq, ppClass, sc.GraphSig()))
